@@ -172,7 +172,10 @@ CallOrdinary(w, o, args) ==
   LET s == w.sig
       ea == EffArgs(w, args)
       r == Sem(s, o, ea, heap)
-      h == IF s.ret = "objVal" THEN Append(r.heap, NewObj("K0", r.ret)) ELSE r.heap
+      \* postfix ++ / --: the result is a new K0 holding what the operand held BEFORE the call
+      h == IF s.ret = "objVal" /\ s.fk \in {"opInc", "opDec"}
+             THEN Append(r.heap, [heap[o] EXCEPT !.cls = "K0", !.bst = 0])
+           ELSE IF s.ret = "objVal" THEN Append(r.heap, NewObj("K0", r.ret)) ELSE r.heap
   IN /\ SemDefined(s, o, ea)
      /\ (s.ret = "objVal" => NObj < MaxHeap)
      /\ heap' = h
